@@ -117,6 +117,18 @@ fn conv_law(v: u32) -> Result<u64, String> {
     if u32::from(MemoryAreaTypeId::from(mt)) != v || u32::from(MemoryAreaTypeId::from(expected_area_type(v))) != v {
         return Err(format!("MemoryAreaType round trip gives {:#x}", u32::from(MemoryAreaTypeId::from(mt))));
     }
+    // a hand-made Custom(v) - also for the specified numbers - converts back to v and compares equal to v
+    let c = TagType::Custom(v);
+    if u32::from(c) != v || c.val() != v || u32::from(TagTypeId::from(c)) != v {
+        return Err(format!("TagType::Custom({:#x}) converts to {:#x}", v, u32::from(c)));
+    }
+    if !(c == v && v == c && c == id && id == c) || c == v.wrapping_add(1) || v.wrapping_add(1) == c {
+        return Err(format!("TagType::Custom({:#x}) does not compare like the number", v));
+    }
+    let mc = MemoryAreaType::Custom(v);
+    if u32::from(MemoryAreaTypeId::from(mc)) != v || !(mc == mid && mid == mc) {
+        return Err(format!("MemoryAreaType::Custom({:#x}) does not convert / compare like the number", v));
+    }
     eq_law(v, v)?;
     eq_law(v, v.wrapping_add(1))?;
     Ok(v as u64)
